@@ -12,7 +12,7 @@ import (
 func init() {
 	register(&propInfo{
 		ID:          "C13",
-		Explanation: "Path analysis of every reflective call into user code in the library: (R13.1) each reflect.Value.Call/CallSlice lies in a function that, on every path to the call, has registered a deferred function literal which calls recover() directly, never re-panics, never type-asserts the recovered value unsafely, and — whenever the recovered value is non-nil, with no further condition — assigns a non-nil error to the function's error result, which is what the function returns; (R13.2) every caller of such a function tests that error and, when it is non-nil, emits an error reply and returns without reaching the success reply; (R13.3) user code is never invoked reflectively from any other place (no goroutine runs handler code outside that frame). (R13.5) nothing acquired before the user call (semaphore send/receive, Lock, WaitGroup.Add, atomic add) is released only after it in straight-line code of the recovering function. R13.2 also requires the value results of the protected call to be indexed only where its error is known nil. (R13.6) the HTTP client reads error replies in full. (R13.7) no pooled memory is used after it was handed back. (R13.8) the client re-sends only on the temporary-connection code. (R13.9) no library mutex stays locked on a return path; (R13.10) the recovering function makes no call through a function value not known to be non-nil.",
+		Explanation: "Path analysis of every reflective call into user code in the library: (R13.1) each reflect.Value.Call/CallSlice lies in a function that, on every path to the call, has registered a deferred function literal which calls recover() directly, never re-panics, never type-asserts the recovered value unsafely, and — whenever the recovered value is non-nil, with no further condition — assigns a non-nil error to the function's error result, which is what the function returns; (R13.2) every caller of such a function tests that error and, when it is non-nil, emits an error reply and returns without reaching the success reply; (R13.3) user code is never invoked reflectively from any other place (no goroutine runs handler code outside that frame). (R13.5) nothing acquired before the user call (semaphore send/receive, Lock, WaitGroup.Add, atomic add) is released only after it in straight-line code of the recovering function. R13.2 also requires the value results of the protected call to be indexed only where its error is known nil. (R13.6) the HTTP client reads error replies in full. (R13.7) no pooled memory is used after it was handed back. (R13.8) the client re-sends only on the temporary-connection code. (R13.9) no library mutex stays locked on a return path; (R13.10) the recovering function makes no call through a function value not known to be non-nil. (R13.11) the recovering function does not unwrap the call's arguments or results (no user method runs while recovering).",
 		NotDecided:  "Panics raised on goroutines the handler itself starts, panics in user-supplied param codecs / tracers / error marshalers (outside the property), and that other calls are unaffected in every schedule (follows from goroutine-per-call structure, not explored).",
 		Assumptions: []string{
 			"Go semantics: recover() only stops a panic when called directly by the deferred function",
@@ -71,6 +71,8 @@ func runC13(c *Ctx) {
 	c.lockLeakRule("R13.9")
 	c.rule("R13.10", "the function that recovers a handler's panic cannot panic itself: it makes no call through a function value (a hook) that is not known to be non-nil there — a nil hook on one construction site turns a recovered panic into a crash of the process")
 	c.recoverMakesNoUnguardedDynamicCall("R13.10")
+	c.ruleOpt("R13.11", "recovering does not go back into user code: the function that recovers a handler's panic (and what it calls) does not unwrap the call's arguments or results (reflect.Value.Interface and friends) — formatting them runs the user's String/Format methods, which can block on a lock the panicking handler still holds, or crash on data another goroutine is writing")
+	c.recoverTouchesNoArguments("R13.11")
 	c.rule("R13.8", "the reply to a panicking call is final: the client re-sends only on the wire's temporary-connection code (the panic reply carries code 0), so the handler is not run again and the caller gets its answer")
 	c.retryGateRule("R13.8")
 	c.ruleOpt("R13.7", "the error reply for a panicking call is not encoded into pooled memory that is handed back before it is written")
@@ -653,5 +655,56 @@ func (c *Ctx) recoverMakesNoUnguardedDynamicCall(rule string) {
 	}
 	if n == 0 {
 		c.und(rule, "recovering functions", "-", "none found")
+	}
+}
+
+// recoverTouchesNoArguments: R13.11. The panic of a handler is turned into that call's error reply by
+// the deferred function that calls recover(). Anything that function does with the call's arguments —
+// "log the arguments with the panic" — is user code again: Sprintf("%+v", arg.Interface()) calls the
+// String / Format / Error / MarshalJSON methods of user types, while the panicking handler's frame has not
+// been unwound (its locks are still held, its goroutines still write). A blocked or crashing recover means
+// the caller never gets its error, or the process dies: the very thing the frame exists to prevent.
+// Reported: a call of (reflect.Value).Interface / Call / Method* / String / MapRange in the synchronous
+// cone of a function that calls recover() directly. The recovered value itself may be formatted (the reply
+// has to mention the panic).
+func (c *Ctx) recoverTouchesNoArguments(rule string) {
+	p := c.P
+	n := 0
+	for _, fn := range p.Funcs {
+		if !p.inTree(fn) {
+			continue
+		}
+		recovers := false
+		allInstrsRaw(fn, func(in ssa.Instruction) {
+			if ci, ok := in.(*ssa.Call); ok {
+				if b, ok := ci.Common().Value.(*ssa.Builtin); ok && b.Name() == "recover" {
+					recovers = true
+				}
+			}
+		})
+		if !recovers {
+			continue
+		}
+		var bad ssa.Instruction
+		p.coneInstrs(fn, func(in ssa.Instruction) {
+			if bad != nil {
+				return
+			}
+			ci, ok := in.(ssa.CallInstruction)
+			if !ok {
+				return
+			}
+			switch calleeName(ci) {
+			case "(reflect.Value).Interface", "(reflect.Value).Call", "(reflect.Value).CallSlice", "(reflect.Value).Method", "(reflect.Value).MethodByName", "(reflect.Value).MapRange", "(reflect.Value).MapKeys":
+				bad = in
+			}
+		})
+		if bad != nil {
+			n++
+			c.bad(rule, fmt.Sprintf("%s: reflective access to call data while recovering", fname(fn)), c.ipos(bad), "the recovering function unwraps a reflect.Value of the call (to log or report the arguments): formatting it runs user methods while the panicking handler's locks are still held and its goroutines still run — the recover can block or crash, and the caller never receives its error")
+		}
+	}
+	if n == 0 {
+		c.ok(rule, "no instance", "-", "no recovering function unwraps the call's arguments or results")
 	}
 }
